@@ -11,6 +11,15 @@ for f in sorted(glob.glob(os.path.join(ROOT, "props", "C*.json"))):
     c = json.load(open(f))
     if c.get("claimed", False):
         cfgs[c["id"]] = c
+def category(level):
+    l = level.lower()
+    if "proof" in l or "fragment" in l:
+        return "proof"
+    if "search" in l:
+        return "exploration"
+    return "other"
+def level_prefix(level):
+    return "" if level == "proof" else "[" + level + "] "
 checks, na = [], []
 for p in props:
     pid = p["id"]
@@ -23,7 +32,7 @@ for p in props:
             "evidence_file": "/verif/evidence/%s.json" % pid,
             "replay_cmd_template": "./check %s --replay {path}" % pid,
             "engine": "lean4-proof+correspondence",
-            "level_claimed": {"category": c.get("level", "proof"), "text": c["level_text"], "design_ref": "DESIGN.md §5 " + pid},
+            "level_claimed": {"category": category(c.get("level", "proof")), "text": level_prefix(c.get("level", "proof")) + c["level_text"], "design_ref": "DESIGN.md §5 " + pid},
             "level_note": c["level_note"],
             "technique": c["technique"],
         })
